@@ -513,6 +513,23 @@ def _writer_layout(prog: Program, w, stmts):
             else:
                 out["curves"] = comp(block.subs(ITEM, it0), gen(it0, seq))
             arr = base
+    if not out["cols"] and out["curves"] is None and not out["problems"]:
+        # whole-array construction: np.column_stack([frequency, <curve blocks>, mean, std]) - one column per entry, in order
+        fnm = lambda z: getattr(getattr(z, "func", None), "__name__", "")   # noqa: E731
+        stacks = [v for v in l.env.values() if fnm(v) == "column_stack" and len(v.args) == 1 and isinstance(v.args[0], sp.Tuple) and len(v.args[0]) >= 4]
+        if len(stacks) == 1:
+            parts = list(stacks[0].args[0])
+            out["cols"] = {"0": parts[0], "-2": parts[-2], "-1": parts[-1]}
+            mid = parts[1:-2]
+            if len(mid) == 1 and fnm(mid[0]) == "attr_T":
+                out["curves"] = sp.Tuple(mid[0].args[0])
+            elif len(mid) == 1 and fnm(mid[0]) == "splat" and fnm(mid[0].args[0]) == "comp" and fnm(mid[0].args[0].args[0]) == "attr_T":
+                cc = mid[0].args[0]
+                out["curves"] = comp(cc.args[0].args[0], *cc.args[1:])
+            elif all(fnm(z) == "attr_T" for z in mid):
+                out["curves"] = sp.Tuple(*[z.args[0] for z in mid])
+            else:
+                out["problems"].append(f"the curve columns of the stacked array are {mid}, not transposed arrays of curves")
     return out
 
 
